@@ -3,7 +3,10 @@
          history of earlier uploads, with one injected fault (file-store
          operation n fails / unexpected field / file without benchmark lines /
          client abort / body cut at an offset / connection drop) or none;
-         observed: status, /search, /uploads, the file store
+         observed: status, /search, /uploads, the file store (in memory, or
+         the local-disk store of storage/fs/local: then every non-directory
+         entry found below its root and in TMPDIR afterwards, under whatever
+         name; "complete" = the store was told to keep exactly that file)
       1  IDs handed out by DB.NewUpload: sequentially, and by 16 goroutines
          concurrently on one database
     The part sequence of a (possibly cut) multipart body and the way it ends
